@@ -2,8 +2,8 @@
 EXTENDS Dispatch, Json, IOUtils
 Trace == ndJsonDeserialize(IOEnv.TRACE_FILE)
 VARIABLES l, nrej
-ClauseNames == <<"M_EV", "EV1", "EV2", "SUP", "UNI1", "UNI2", "UNI3", "IB1", "IB2", "GC", "CCM">>
-Clauses(e) == [M_EV |-> EV_M(e), EV1 |-> EV_1(e), EV2 |-> EV_2(e), SUP |-> SUP(e), UNI1 |-> UNI_1(e), UNI2 |-> UNI_2(e),
+ClauseNames == <<"M_EV", "EV1", "EV2", "SUP", "IFF", "UNI1", "UNI2", "UNI3", "IB1", "IB2", "GC", "CCM">>
+Clauses(e) == [M_EV |-> EV_M(e), EV1 |-> EV_1(e), EV2 |-> EV_2(e), SUP |-> SUP(e), IFF |-> IFF(e), UNI1 |-> UNI_1(e), UNI2 |-> UNI_2(e),
                UNI3 |-> UNI_3(e), IB1 |-> IB_1(e), IB2 |-> IB_2(e), GC |-> GC(e), CCM |-> CCM(e)]
 Failing(e) == LET c == Clauses(e) IN SelectSeq(ClauseNames, LAMBDA n : ~c[n])
 Init == l = 1 /\ nrej = 0
